@@ -15,7 +15,7 @@ def filename_for(cps, style=0):
     return "-".join("%04x" % c for c in cps) + ".svg"
 
 
-def make_config(tmp, overrides, sources):
+def make_config(tmp, overrides, sources, cps_from_names=True):
     """sources: list of (filename, svg_text, codepoints[, png_bytes]).  Returns (config, inputs,
     picos) where picos[i] is the picosvg-normalised text of source i (None for untouched and
     bitmap formats)."""
@@ -45,8 +45,8 @@ def make_config(tmp, overrides, sources):
 
     GM = namedtuple("GM", "codepoints glyph_name")
     by_stem = {}
-    for p in paths:
-        c = tuple(cpmod.from_filename(p.stem))
+    for p, src in zip(paths, sources):
+        c = tuple(cpmod.from_filename(p.stem)) if cps_from_names else tuple(src[2])
         by_stem[p.stem] = GM(c, glyph_name(c))
     sources = [(fn, text, tuple(by_stem[Path(fn).stem].codepoints), png) for fn, text, cps, png in sources]
     fea = tmp / "features.fea"
@@ -76,13 +76,13 @@ def make_config(tmp, overrides, sources):
     return cfg, inputs, picos
 
 
-def build_inprocess(overrides, sources):
+def build_inprocess(overrides, sources, cps_from_names=True):
     """Returns (reloaded TTFont, config, picos, bytes)."""
     from fontTools import ttLib
     from nanoemoji import write_font
 
     with scratch_dir("verif-build-") as tmp:
-        cfg, inputs, picos = make_config(tmp, overrides, sources)
+        cfg, inputs, picos = make_config(tmp, overrides, sources, cps_from_names)
         ufo, ttfont = write_font._generate_color_font(cfg, inputs)
         buf = io.BytesIO()
         ttfont.save(buf)
